@@ -16,12 +16,12 @@ Definition site_guarded (s : site) : bool := snd s.
     otherwise the faithful model of the code is [Shared] *)
 Definition mode_of (l : list site) : mode := if forallb site_guarded l then Isolated else Shared.
 
-(** the functions that are known to touch the pointer: the message-server paths that execute EVM
-    code, the constructor that publishes, the mirror; plus the two accessors a guarded design uses.
-    None of them is a gRPC query handler. *)
-Definition allowed_functions : list string :=
-  [ "EthereumTx"; "NewStateDB"; "SyncStateDBWithAccount"; "convertCoinToEvmBornCoin"; "convertCoinToEvmBornERC20";
-    "createFunTokenFromERC20"; "deployERC20ForBankCoin"; "TxStateDB"; "ClearTxStateDB" ].
+(** where the pointer may be touched: inside x/evm/keeper only, and never directly by a gRPC query
+    handler (a renamed accessor or an additional guarded message-server site is not an alarm; an
+    UNGUARDED access anywhere is — obligation C09_every_access_guarded) *)
+Definition query_handlers : list string :=
+  [ "EthCall"; "EstimateGas"; "EstimateGasForEvmCallType"; "TraceTx"; "TraceCall"; "TraceBlock"; "TraceEthTxMsg";
+    "EthAccount"; "ValidatorAccount"; "Balance"; "BaseFee"; "Storage"; "Code"; "Params"; "FunTokenMapping" ].
 
 Definition site_known (s : site) : bool :=
-  String.eqb (site_dir s) "x/evm/keeper" && existsb (String.eqb (site_fn s)) allowed_functions.
+  String.eqb (site_dir s) "x/evm/keeper" && negb (existsb (String.eqb (site_fn s)) query_handlers).
